@@ -77,6 +77,9 @@ func c17Gen(r *rand.Rand, tier string) []spec.Case {
 							if launch == "cmd" && r.Intn(2) == 0 {
 								p.UserEnv = []string{"VERIF_USER_VAR=mine"}
 							}
+							if launch == "runner" && r.Intn(3) == 0 {
+								p.RetryStart = true // the first RunnerFunc call fails, the second launch is judged
+							}
 							add("env", p)
 						}
 					}
@@ -182,6 +185,10 @@ func c17Judge(c spec.Case, evs []spec.Event, d *Death) CaseResult {
 	}
 	res := CaseResult{Verdict: "held", Counters: map[string]int{}}
 	res.Class = fmt.Sprintf("%s ambient=%s user=%s mtls=%v mux=%v skip=%v e2e=%v", p.Launch, p.AmbientName, p.UserEnvName, p.AutoMTLS, p.Mux, p.SkipHostEnv, p.E2E)
+	if p.RetryStart {
+		res.Class += " second-start-after-runner-error"
+		res.Counters["second_launch_envs_judged"]++
+	}
 	viol := func(key, msg string) {
 		res.Verdict = "violated"
 		res.Violations = append(res.Violations, Violation{Key: "C17:" + key, Msg: fmt.Sprintf("%s [launch=%s ambient=%s userEnv=%s autoMTLS=%v mux=%v skipHostEnv=%v sets=%s]", msg, p.Launch, p.AmbientName, p.UserEnvName, p.AutoMTLS, p.Mux, p.SkipHostEnv, p.Sets)})
@@ -342,7 +349,7 @@ func init() {
 		ID: "C17", Level: "exploration", Race: true, TestName: "TestC17",
 		Gen: c17Gen, Batch: 12, Children: 12, PerCase: 3 * time.Second, Base: 90 * time.Second,
 		Judge: c17Judge,
-		Rule:  "cases = client configuration (AutoMTLS x mux x SkipHostEnv x launch method x plugin-set layout x port range x socket group/TempDir x user Cmd.Env, including entries that collide with the control variables) x ambient host environment (clean, marker variables, host that is itself a plugin and carries PLUGIN_* variables, single inherited variable). The environment is captured as handed to a custom runner and as actually received by a real child process (which also reports its stdin's device/inode); e2e cases launch a real serving plugin from such a host; two-client rounds build two clients from one ClientConfig (one UnixSocketConfig) through a RunnerFunc, keep both alive and record the socket directory each runner was handed, PLUGIN_UNIX_SOCKET_DIR in each environment and which directories exist after each Kill. Class = (launch, ambient, AutoMTLS, mux, SkipHostEnv, e2e)",
+		Rule:  "cases = client configuration (AutoMTLS x mux x SkipHostEnv x launch method x plugin-set layout x port range x socket group/TempDir x user Cmd.Env, including entries that collide with the control variables) x ambient host environment (clean, marker variables, host that is itself a plugin and carries PLUGIN_* variables, single inherited variable). The environment is captured as handed to a custom runner (in a third of those cases at the second Start of a client whose first RunnerFunc call failed) and as actually received by a real child process (which also reports its stdin's device/inode); e2e cases launch a real serving plugin from such a host; two-client rounds build two clients from one ClientConfig (one UnixSocketConfig) through a RunnerFunc, keep both alive and record the socket directory each runner was handed, PLUGIN_UNIX_SOCKET_DIR in each environment and which directories exist after each Kill. Class = (launch, ambient, AutoMTLS, mux, SkipHostEnv, e2e)",
 		Assumptions: []string{
 			"the effective environment is computed as exec does (last duplicate wins); an empty value counts as absent because that is how the server reads these variables",
 			"only ambient variables are judged under SkipHostEnv; entries the user put into Cmd.Env are theirs",
